@@ -184,6 +184,11 @@ theorem kf_ident :
     (pathIdent [.set] [("id", .str "x"), ("v", .str "a")] [("id", .str "x")]
       == identObj [.set] [("id", .str "x")]) = true := by decide +kernel
 
+/-- the member is found in the first pass (exact key values), so the tolerant second pass is not used -/
+theorem kf_tol :
+    keyedTol [("id", .str "x")] [.obj [("id", .str "x"), ("v", .str "a")]] = false := by
+  simp [keyedTol, kf_ident]
+
 /-- **KF-C08-swallow.** The code as it is (`sw = true`): the nested patch FAILS, yet `Patch` reports
     success and returns the document unchanged (as a set-typed array) — "a failure there fails the
     whole patch" does not hold -/
@@ -193,7 +198,7 @@ theorem keyed_member_failure_swallowed :
   have h : patchAll true kfDoc [kfBadHunk]
       = .ok (.arr .set [.obj [("id", .str "x"), ("v", .str "a")]]) := by
     simp [kfDoc, kfBadHunk, patchAll, patchNode.eq_def, patchKeyed.eq_def, patchObjChild.eq_def,
-      effTag, pathMeta, dispatchTag, kf_ident, alookup, patchFresh, Path.isLeaf, equals,
+      effTag, pathMeta, dispatchTag, kf_ident, kf_tol, alookup, patchFresh, Path.isLeaf, equals,
       Json.singleValue]
   exact ⟨h, h⟩
 
@@ -202,7 +207,7 @@ theorem keyed_member_failure_swallowed :
 theorem keyed_member_failure_propagated_when_fixed :
     patchAll false kfDoc [kfBadHunk] = .err := by
   simp [kfDoc, kfBadHunk, patchAll, patchNode.eq_def, patchKeyed.eq_def, patchObjChild.eq_def,
-    effTag, pathMeta, dispatchTag, kf_ident, alookup, patchFresh, Path.isLeaf, equals,
+    effTag, pathMeta, dispatchTag, kf_ident, kf_tol, alookup, patchFresh, Path.isLeaf, equals,
     Json.singleValue]
 
 /-- a nested change that matches is applied strictly inside the object matching the keys, in both
@@ -210,7 +215,7 @@ theorem keyed_member_failure_propagated_when_fixed :
 theorem keyed_member_applies (sw : Bool) :
     patchAll sw kfDoc [kfGoodHunk] = .ok (.arr .set [.obj [("id", .str "x"), ("v", .str "b")]]) := by
   simp [kfDoc, kfGoodHunk, patchAll, patchNode.eq_def, patchKeyed.eq_def, patchObjChild.eq_def,
-    effTag, pathMeta, dispatchTag, kf_ident, alookup, patchFresh, Path.isLeaf, equals,
+    effTag, pathMeta, dispatchTag, kf_ident, kf_tol, alookup, patchFresh, Path.isLeaf, equals,
     Json.singleValue, Json.isVoid, ainsert, Pure.pure]
 
 end Jd.Props.C08
